@@ -289,6 +289,9 @@ impl RK23 {
                             k1.copy_from_slice(&k4);
                         }
                     }
+                } else {
+                    // No callback installed: the first stage of the next step is still the last stage of this one.
+                    k1.copy_from_slice(&k4);
                 }
 
                 // Adjust step size
